@@ -8,7 +8,7 @@ counts callbacks, warnings, loop exception-handler calls and log records of leve
   * every one of the 65,536 two-byte model codes inside otherwise valid frames of each of the three
     accepted lengths (quick: the 9 known codes, all their 1-bit neighbours and a stride).
 Oracle: not (magic and length in {165,168,159}) => nothing at all happens; gate passed and unknown
-model code => no device, exactly one 'unknown' UserWarning, no exception.
+model code => no device, exactly one warning (of any category) saying 'unknown', no exception.
 """
 from mc.bridgeworld import BridgeWorld
 from mc.core import Res
@@ -158,8 +158,8 @@ def judge(res, case, data, ob):
         res.violation("unknown-model-raises", case, f"{desc}: unknown model code {code} raised {ob['loop_exceptions'][0]}", "warning", ob["loop_exceptions"])
         ok = False
     w = [x for x in ob["warnings"] if "unknown" in x[1].lower()]
-    if len(w) != 1 or w[0][0] != "UserWarning" or len(ob["warnings"]) != 1:
-        res.violation("unknown-model-warning", case, f"{desc}: expected exactly one 'unknown device' UserWarning, got {ob['warnings']}", 1, ob["warnings"])
+    if len(w) != 1 or len(ob["warnings"]) != 1:
+        res.violation("unknown-model-warning", case, f"{desc}: expected exactly one 'unknown device' warning, got {ob['warnings']}", 1, ob["warnings"])
         ok = False
     return ok
 
